@@ -3,6 +3,7 @@ package main
 import (
 	"fmt"
 	"go/ast"
+	"go/token"
 	"go/types"
 	"sort"
 	"strings"
@@ -177,7 +178,7 @@ func runC06(c *Ctx, r *Report) {
 }
 
 func c06Strings(c *Ctx, r *Report) {
-	info := c.fit.TypesInfo
+	_ = c.fit.TypesInfo
 	// encoder: length := len(str); if length > int(size)-1 { length = int(size)-1 }; bstr := make([]byte, size); copy(bstr, str[:length])
 	if fd := c.decl(c.fn(c.fit, "encodeString")); fd != nil {
 		var seq []string
@@ -190,45 +191,136 @@ func c06Strings(c *Ctx, r *Report) {
 			strings.Contains(src, "bstr:=make([]byte,size)") && strings.Contains(src, "copy(bstr,str[:length])")
 		r.check(ok, "C06-R3-strings", "encodeString/clamp-and-terminate", c.pos(fd.Pos()), "at most size-1 bytes are copied into a zeroed buffer of size bytes: always NUL-terminated", "encodeString no longer clamps to size-1 bytes in a zeroed buffer: a string of exactly the field size would lose its terminator (or more is copied than fits)")
 	}
-	// decoder: for j = 0; j < dsize; j++ { if d.tmp[j] == 0x00 { break } }; if j > 0 { fieldv.SetString(string(d.tmp[:j])) }
-	fd := c.decl(c.fn(c.fit, "decoder.parseFitField"))
-	if fd == nil {
-		r.fail("C06-R3-strings", "parseFitField/string-arm", "", "not found")
-		return
+	ok, why, pos := stringArm(c)
+	r.check(ok, "C06-R3-strings", "parseFitField/string-arm", pos, why, "the scalar string arm is not `SetString(string(tmp[:j]))` with j the index of the first 0x00 inside the field (or the field size): "+why)
+}
+
+// stringArm decides on SSA that the scalar string arm hands reflect's SetString exactly the bytes
+// of the scratch buffer before the first NUL inside the field: the argument is a direct string
+// conversion of tmp[:J] (no function in between), and J is either the counter of the scanning
+// loop `for J = 0; J < size; J++ { if tmp[J] == 0 { break } }` or `bytes.IndexByte(tmp[:size], 0)`
+// replaced by size when negative.
+func stringArm(c *Ctx) (bool, string, string) {
+	fn := c.ssaFn(c.fn(c.fit, "decoder.parseFitField"))
+	if fn == nil {
+		return false, "decoder.parseFitField not found", ""
 	}
-	ok := false
-	ast.Inspect(fd.Body, func(n ast.Node) bool {
-		cc, isCC := n.(*ast.CaseClause)
-		if !isCC || len(cc.List) != 1 {
-			return true
+	var set ssa.CallInstruction
+	n := 0
+	for _, ci := range allCalls(fn) {
+		if f := ci.Common().StaticCallee(); f != nil && f.String() == "(reflect.Value).SetString" {
+			set = ci
+			n++
 		}
-		if v, isC := exprInt(info, cc.List[0]); !isC || v != 0x07 {
-			return true
+	}
+	if n != 1 {
+		return false, fmt.Sprintf("%d SetString calls", n), c.pos(fn.Pos())
+	}
+	pos := c.pos(set.Pos())
+	cv, ok := set.Common().Args[1].(*ssa.Convert)
+	if !ok {
+		return false, "the string handed to SetString is not a direct conversion of scratch bytes: " + stripAddrs(pathOf(set.Common().Args[1])), pos
+	}
+	sl, ok := cv.X.(*ssa.Slice)
+	if !ok || !strings.HasSuffix(pathOf(sl.X), ".tmp") || sl.High == nil {
+		return false, "the converted bytes are not a prefix of the scratch buffer: " + stripAddrs(pathOf(cv.X)), pos
+	}
+	if sl.Low != nil {
+		if k, isC := sl.Low.(*ssa.Const); !isC || k.Int64() != 0 {
+			return false, "the converted bytes do not start at the beginning of the field", pos
 		}
-		var loopOK, setOK bool
-		for _, s := range cc.Body {
-			switch x := s.(type) {
-			case *ast.ForStmt:
-				cond := ""
-				if x.Cond != nil {
-					cond = strings.ReplaceAll(exprStr(x.Cond), " ", "")
-				}
-				body := strings.ReplaceAll(strings.ReplaceAll(stmtStr(c, x.Body), " ", ""), "\n", "")
-				body = strings.ReplaceAll(body, "\t", "")
-				if cond == "j<dsize" && strings.Contains(body, "ifd.tmp[j]==0x00{break}") {
-					loopOK = true
-				}
-			case *ast.IfStmt:
-				if strings.ReplaceAll(exprStr(x.Cond), " ", "") == "j>0" {
-					b := strings.ReplaceAll(stmtStr(c, x.Body), " ", "")
-					if strings.Contains(b, "fieldv.SetString(string(d.tmp[:j]))") {
-						setOK = true
-					}
-				}
+	}
+	isSize := func(v ssa.Value) bool {
+		p := stripAddrs(pathOf(v))
+		return strings.HasPrefix(p, "conv<int>(") && strings.HasSuffix(p, ".size)")
+	}
+	isZero := func(v ssa.Value) bool {
+		k, ok := v.(*ssa.Const)
+		return ok && k.Value != nil && k.Int64() == 0
+	}
+	tmpAt := func(v ssa.Value, idx ssa.Value) bool { // load of tmp[idx]
+		ld, ok := v.(*ssa.UnOp)
+		if !ok || ld.Op != token.MUL {
+			return false
+		}
+		ia, ok := ld.X.(*ssa.IndexAddr)
+		return ok && ia.Index == idx && strings.HasSuffix(pathOf(ia.X), ".tmp")
+	}
+	J, ok := sl.High.(*ssa.Phi)
+	if !ok || len(J.Edges) != 2 {
+		return false, "the prefix length is not a recognised first-NUL index: " + stripAddrs(pathOf(sl.High)), pos
+	}
+	// (a) scanning loop
+	for i := 0; i < 2; i++ {
+		inc, ok := J.Edges[1-i].(*ssa.BinOp)
+		if !isZero(J.Edges[i]) || !ok || inc.Op != token.ADD || inc.X != ssa.Value(J) {
+			continue
+		}
+		if k, isC := inc.Y.(*ssa.Const); !isC || k.Int64() != 1 {
+			continue
+		}
+		H := J.Block()
+		hif, ok := H.Instrs[len(H.Instrs)-1].(*ssa.If)
+		if !ok {
+			continue
+		}
+		cond, ok := hif.Cond.(*ssa.BinOp)
+		if !ok || cond.Op != token.LSS || cond.X != ssa.Value(J) || !isSize(cond.Y) {
+			return false, "the scanning loop is not bounded by the field size", pos
+		}
+		B := H.Succs[0]
+		bif, ok := B.Instrs[len(B.Instrs)-1].(*ssa.If)
+		if !ok {
+			return false, "the scanning loop body does not test the byte", pos
+		}
+		bc, ok := bif.Cond.(*ssa.BinOp)
+		if !ok || bc.Op != token.EQL || !tmpAt(bc.X, J) || !isZero(bc.Y) {
+			return false, "the scanning loop does not stop at tmp[j] == 0x00", pos
+		}
+		// the false edge continues the loop (reaches the increment), the true edge leaves it
+		if inc.Block() != B.Succs[1] && !(len(B.Succs[1].Succs) == 1 && B.Succs[1].Succs[0] == H) {
+			return false, "the byte test does not continue the scan on a non-zero byte", pos
+		}
+		if B.Succs[0] == H || B.Succs[0] == inc.Block() {
+			return false, "a zero byte does not end the scan", pos
+		}
+		return true, "SetString(string(tmp[:j])), j from the scanning loop bounded by the field size that stops at the first 0x00", pos
+	}
+	// (b) bytes.IndexByte(tmp[:size], 0), size when negative
+	for i := 0; i < 2; i++ {
+		call, ok := J.Edges[i].(*ssa.Call)
+		if !ok || !isSize(J.Edges[1-i]) {
+			continue
+		}
+		f := call.Common().StaticCallee()
+		if f == nil || f.String() != "bytes.IndexByte" || !isZero(call.Common().Args[1]) {
+			continue
+		}
+		src, ok := call.Common().Args[0].(*ssa.Slice)
+		if !ok || !strings.HasSuffix(pathOf(src.X), ".tmp") || src.High == nil || !isSize(src.High) || (src.Low != nil && !isZero(src.Low)) {
+			return false, "IndexByte does not search tmp[:size]", pos
+		}
+		neg := func(v ssa.Value) bool {
+			bo, ok := v.(*ssa.BinOp)
+			if !ok || bo.X != ssa.Value(call) {
+				return false
+			}
+			k, isC := bo.Y.(*ssa.Const)
+			return isC && (bo.Op == token.LSS && k.Int64() == 0 || bo.Op == token.EQL && k.Int64() == -1)
+		}
+		if !domByBoolEdge(fn, J.Block().Preds[1-i], true, neg) && J.Block().Preds[1-i] != nil {
+			// the size edge may come straight from the block of the test
+			okEdge := false
+			p := J.Block().Preds[1-i]
+			if pif, ok := p.Instrs[len(p.Instrs)-1].(*ssa.If); ok && neg(pif.Cond) && p.Succs[0] == J.Block() {
+				okEdge = true
+			}
+			if !okEdge {
+				return false, "the field size replaces the index on an edge that is not `index < 0`", pos
 			}
 		}
-		ok = loopOK && setOK
-		return true
-	})
-	r.check(ok, "C06-R3-strings", "parseFitField/string-arm", c.pos(fd.Pos()), "the decoder takes the bytes before the first NUL inside the field", "the scalar string arm is not `scan to the first 0x00 below dsize; SetString(prefix)`")
+		return true, "SetString(string(tmp[:j])), j = bytes.IndexByte(tmp[:size], 0), size when there is no 0x00", pos
+	}
+	return false, "the prefix length is not a recognised first-NUL index: " + stripAddrs(pathOf(sl.High)), pos
+
 }
